@@ -80,7 +80,7 @@ def gen(ctx):
                         a["fl"] = fl
                     program.append({"op": s["op"], "a": a})
                 index.append((t, fl))
-        events = run_harness("bitmap", program, os.path.join(WORK, "gen_bitmap_%s.out.ndjson" % ctx.pid))
+        events = run_harness("bitmap", program, os.path.join(WORK, "gen_bitmap_%s.out.ndjson" % ctx.pid), ctx=ctx)
         hist = split_events(events)
         if len(hist) != len(index):
             raise ToolError("harness returned %d histories for %d tests" % (len(hist), len(index)))
@@ -181,7 +181,7 @@ def traces(ctx):
     prog = []
     for _ in range(nhist):
         prog += rand_history(ctx.rnd, nops)
-    events = run_harness("bitmap", prog, os.path.join(WORK, "tr_bitmap_%s.out.ndjson" % ctx.pid))
+    events = run_harness("bitmap", prog, os.path.join(WORK, "tr_bitmap_%s.out.ndjson" % ctx.pid), ctx=ctx)
     mism = validate_trace(ctx, TRACE_TLA, os.path.join(SPEC, "Trace_Bitmap.%s.cfg" % ctx.pid), "tr_bitmap_" + ctx.pid,
                           events, timeout=3000)
     ctx.cov["traces_validated_against_impl"] += nhist
